@@ -72,7 +72,8 @@ Record input := mkInput {
   i_refs : list (list Z * Z);   (* header references: name, length *)
   i_so : Z;                     (* header sort order: 0 unknown 1 unsorted 2 queryname 3 coordinate *)
   i_recs : list rec;            (* records delivered before the end *)
-  i_fail : bool                 (* the end is an error, not io.EOF *)
+  i_fail : bool;                (* the end is an error, not io.EOF *)
+  i_go : Z                      (* header group order: 0 unspecified 1 none 2 query 3 reference *)
 }.
 
 (** merger.go: type reader struct { id; r; head; err } — [d_rest]/[d_fail] is
@@ -354,15 +355,22 @@ Fixpoint merge_more (h : list (list Z * Z)) (ins : list input) : option (list (l
 Fixpoint iota (n : nat) (from : Z) : list Z :=
   match n with O => [] | S k => from :: iota k (from + 1) end.
 
-(** sam.MergeHeaders on the reference lists: merged list and reflinks *)
-Definition merge_headers (ins : list input) : option (list (list Z * Z) * option (list (list Z))) :=
+(** the part of a sam.Header the merger deals with *)
+Record mhdr := mkMH { mh_refs : list (list Z * Z); mh_so : Z; mh_go : Z }.
+
+(** sam.MergeHeaders on headers reduced to references, sort order and group
+    order: merged header and reflinks.  One source: the source header itself
+    and nil reflinks; otherwise a clone of the first with SortOrder =
+    UnknownOrder and GroupOrder = GroupUnspecified, extended by the references
+    of the others. *)
+Definition merge_headers (ins : list input) : option (mhdr * option (list (list Z))) :=
   match ins with
-  | [] => Some ([], None)
-  | [one] => Some (i_refs one, None)
+  | [] => Some (mkMH [] 0 0, None)
+  | [one] => Some (mkMH (i_refs one) (i_so one) (i_go one), None)
   | first :: more =>
     match merge_more (i_refs first) more with
     | None => None
-    | Some (h, lss) => Some (h, Some (iota (length (i_refs first)) 0 :: lss))
+    | Some (h, lss) => Some (mkMH h 0 0, Some (iota (length (i_refs first)) 0 :: lss))
     end
   end.
 
@@ -373,11 +381,33 @@ Definition pick_less (so : Z) (code : Z) : option (rec -> rec -> bool) :=
   else if so =? 3 then Some less_by_coordinate
   else custom_less code.
 
+Fixpoint so_agree (so : Z) (ins : list input) : bool :=
+  match ins with [] => true | i :: t => (i_so i =? so) && so_agree so t end.
+
+(** NewMerger as a whole: the checks on src, the header merge, m.h.SortOrder =
+    so, the choice of m.less from the merged header's sort order, the readers.
+    Errors: 1 io.EOF (no source), 2 sort order mismatch, 3 MergeHeaders failed. *)
+Definition new_merger_full (pq : pqops) (code : Z) (ins : list input)
+  : outcome (mhdr * option (list (list Z)) * option (rec -> rec -> bool) * mstate) :=
+  match ins with
+  | [] => Err 1
+  | first :: _ =>
+    let so := i_so first in
+    if negb (so_agree so ins) then Err 2 else
+    match merge_headers ins with
+    | None => Err 3
+    | Some (h, links) =>
+      let h' := mkMH (mh_refs h) so (mh_go h) in
+      let lessf := pick_less (mh_so h') code in
+      obind (new_merger pq links lessf ins) (fun m => Ok (h', links, lessf, m))
+    end
+  end.
+
 (** * Correspondence: the case type and the agreement test *)
 Inductive c18obs :=
 | ObsNewPanic
 | ObsNewErr
-| ObsRun (hrefs : list (list Z * Z)) (outs : list (Z * Z * Z)) (e : Z) (after : list Z).
+| ObsRun (hrefs : list (list Z * Z)) (hso hgo : Z) (outs : list (Z * Z * Z)) (e : Z) (after : list Z).
 
 Inductive c18case :=
 | CMerge (less : Z) (ins : list input) (after : Z) (o : c18obs)
@@ -420,31 +450,20 @@ Fixpoint zlist_eqb (a b : list Z) : bool :=
   | _, _ => false
   end.
 
-Fixpoint so_agree (so : Z) (ins : list input) : bool :=
-  match ins with [] => true | i :: t => (i_so i =? so) && so_agree so t end.
-
 Definition c18_agree (c : c18case) : bool :=
   match c with
   | CLess _ a b bn bc =>
     Bool.eqb (less_by_name a b) bn && Bool.eqb (less_by_coordinate a b) bc
   | CMerge code ins after o =>
-    match ins with
-    | [] => false
-    | first :: _ =>
-      if negb (so_agree (i_so first) ins) then match o with ObsNewErr => true | _ => false end else
-      match merge_headers ins with
-      | None => match o with ObsNewErr => true | _ => false end
-      | Some (h, links) =>
-        let lessf := pick_less (i_so first) code in
-        match new_merger goheap links lessf ins, o with
-        | Panic _, ObsNewPanic => true
-        | Ok m, ObsRun hrefs outs e aft =>
-          let '(mo, me, mf) := drain goheap links lessf (S (S (S (total_recs ins)))) m in
-          refs_eqb h hrefs && outs_eqb mo outs && (me =? e)
-          && zlist_eqb (if (me =? 0) || (me =? 1) then after_codes goheap links lessf (Z.to_nat after) mf else []) aft
-        | _, _ => false
-        end
-      end
+    match new_merger_full goheap code ins, o with
+    | Err _, ObsNewErr => true
+    | Panic _, ObsNewPanic => true
+    | Ok (h, links, lessf, m), ObsRun hrefs hso hgo outs e aft =>
+      let '(mo, me, mf) := drain goheap links lessf (S (S (S (total_recs ins)))) m in
+      refs_eqb (mh_refs h) hrefs && (mh_so h =? hso) && (mh_go h =? hgo)
+      && outs_eqb mo outs && (me =? e)
+      && zlist_eqb (if (me =? 0) || (me =? 1) then after_codes goheap links lessf (Z.to_nat after) mf else []) aft
+    | _, _ => false
     end
   end.
 
